@@ -5,6 +5,7 @@ import OpenFecVerif.Proofs.RfcWF
 import OpenFecVerif.Proofs.MLComplete
 import OpenFecVerif.Proofs.SessWF
 import OpenFecVerif.Gen.Macros
+import OpenFecVerif.Proofs.DrawTotal
 /-!
 # C05 — the LDPC-Staircase code depends only on (k, n, N1, seed)
 
@@ -135,3 +136,17 @@ theorem C05_column_mapping (k r : Nat) (hn : k + r < 2147483648) :
   · rename_i h
     rw [Int.toNat_natCast, hesi _ (by omega), if_pos (by omega)]
     congr 1; omega
+
+/-- **The construction always returns a matrix** (termination of RFC 5170's rejection loops): for every rounding operator of the
+binary64 standard model, every valid seed, N1 ≤ n−k and sizes with k, n−k, N1·k below 2^30 (the library's limits are far below),
+`create` yields a matrix — none of the `do … while` loops can run for 2^31 draws.  Proof: 2^31−1 is prime and 16807 is a primitive
+root modulo it (Lucas test, `Proofs/PrimRoot.lean`), so the generator visits every valid state; every value below a loop's bound is
+the scaled output of some state even where the product exceeds 2^53 (`Proofs/RandHit.lean`); and every loop is entered with an
+acceptable value (choice list scan / pigeonhole on the column / k > 1; `Proofs/RfcTotal.lean`). -/
+theorem C05_construction_total (rn : ℚ → ℚ) (h : RN53 rn) (g k r N1 seed : Nat) (hk : 1 ≤ k) (hr : 1 ≤ r)
+    (hk30 : k < 2 ^ 30) (hr30 : r < 2 ^ 30) (ht30 : N1 * k < 2 ^ 30) (hN : N1 ≤ r) (h1 : 1 ≤ seed) (h2 : seed ≤ 2147483646) :
+    (create rn g k r N1 seed).2.isSome = true :=
+  RfcTotal.create_total rn (C05_goodRand rn h) (DrawTotalProof.drawTotal rn h) g k r N1 seed hk hr hk30 hr30 ht30 hN ⟨h1, h2⟩
+
+-- non-vacuity: the hypotheses are met by an ordinary configuration (k = 1000, n−k = 500, N1 = 5, seed 1, exact arithmetic)
+example : RN53 id ∧ (1 : ℕ) ≤ 1000 ∧ (1000 : ℕ) < 2 ^ 30 ∧ 5 * 1000 < 2 ^ 30 ∧ (5 : ℕ) ≤ 500 := ⟨RN53_id, by norm_num, by norm_num, by norm_num, by norm_num⟩
